@@ -294,7 +294,7 @@ def classify(viol, text, info):
         earlier_refusal = any(e["class"] == "R" and (e["run"], e["tid"], e["op"]) != (got["run"], got["tid"], got["op"]) for e in res["evals"])
         if count_ops(runs) == 1 and any(r["attrs"].get("hash", "0") != "0" for r in runs):
             return "H"
-        if got.get("handle"):
+        if got.get("handle") and not got["key"].split(" ")[0].endswith(".new"):
             return "V"
         if earlier_refusal:
             return "I"
@@ -523,6 +523,8 @@ def run_check(tier, seed):
 def strip(e):
     if not e:
         return None
+    if not isinstance(e, dict):
+        return {"text": str(e)}
     return {k: e[k] for k in ("class", "digest", "text", "run", "tid", "op") if k in e}
 
 
@@ -751,4 +753,12 @@ def main():
 
 
 if __name__ == "__main__":
-    main()
+    try:
+        main()
+    except SystemExit:
+        raise
+    except BaseException as e:  # noqa: a crash of the driver is never a verdict
+        import traceback
+        traceback.print_exc()
+        print("HARNESS-ERROR: driver crashed: %r" % (e,))
+        sys.exit(2)
